@@ -66,6 +66,15 @@ CHECKS = {
              "wrapped and aliased as the position prescribes. Held on the executions observed.",
         note="Comparison through the reference lexers; placeholders compared by kind.",
         ref="DESIGN.md section 4 C10"),
+    "C11": dict(
+        technique="reference scope model vs qualifier tokens of uniquely named columns (reference lexers); Field.get_sql render events for shared names; sqlite3 prepare on an all-columns schema",
+        text="Statements generated from specifications (kind x source shapes x second source by FROM/JOIN/USING/UPDATE..FROM/foreign "
+             "WHERE/self-join x clause) give every Field a unique column name; the qualifier in front of each occurrence must be "
+             "exactly what the scope model prescribes (alias for aliased sources, name when several sources are in scope, bare "
+             "otherwise and for names without a table); same-named columns of two tables are checked in both operand orders; SQLite "
+             "prepares against a schema where every table has every column. Held on the executions observed, two known findings.",
+        note="The scope model is written from the property statement; SQLite prepare covers plain/aliased/subquery sources.",
+        ref="DESIGN.md section 4 C11"),
     "C12": dict(
         technique="differential tokenisation of aliased vs plain renderings for every Term subclass taken from the live modules",
         text="Every Term subclass/variant (zoo + leaf classes, discovered by introspection) is placed in every defining position "
